@@ -10,5 +10,6 @@ CONSTANTS
   TimeoutsK = {0, 2}
   MaxOpens = 1
   EnvEdits = TRUE
+  MidRun = "no"
 INVARIANTS Containment OrderRespected NoDescentBelowOomGroup UnpopulatedNeverAttempted DryIsPure NoSignalWhileHookOutstanding AtMostOneInvocation OneFirePerVictim RetMapping NoFireAfterWindow
 CHECK_DEADLOCK FALSE
